@@ -78,8 +78,12 @@ pub fn run(n: usize, rng: &mut Rng, rep: &mut Report) {
         let d = if rng.chance(4, 5) { custom_doc(rng) } else { let mut x = doc::grammar_doc(rng); x.push_str("\n@@@\n"); x };
         let input = format!("custom-block src={}", hexs(&d));
         let mut outs = vec![];
+        // "whatever container precedes it" - and whichever other rules are loaded: half of the cases run under a sampled plugin
+        // subset / registration order (paragraph rule kept, default nesting limit: over the limit content is dropped by design)
+        let c = if rng.chance(1, 2) { cfg::Cfg::stock() } else { let mut c = cfg::sample(rng, true, true); c.max_nesting = 100; c };
+        let input = format!("{} cfg[{}]", input, c.describe());
         for style_a in [true, false] {
-            let mut md = cfg::Cfg::stock().build();
+            let mut md = c.build();
             if style_a { md.block.add_rule::<AtRuleA>(); } else { md.block.add_rule::<AtRuleB>(); }
             AT_LOG.with(|l| l.borrow_mut().clear());
             let r = crate::util::guarded(|| md.parse(&d).render());
@@ -96,7 +100,9 @@ pub fn run(n: usize, rng: &mut Rng, rep: &mut Report) {
             // scan need not be honoured at that very line (lazy continuation lines, html blocks running to a blank line).
             let real = log.iter().filter(|(s, _, ok)| !*s && *ok).count();
             let in_src = d.matches("@@@").count();
-            let in_out = html.matches("@@@").count() + html.matches("<hr>@").count();
+            // the custom block renders `<hr ATTRS>@` (attributes when the sourcepos plugin is loaded)
+            let custom_out = html.match_indices("<hr").filter(|(i, _)| html[*i..].find('>').map_or(false, |j| html[*i + j..].starts_with(">@"))).count();
+            let in_out = html.matches("@@@").count() + custom_out;
             if in_out != in_src {
                 rep.violation("source-line-lost", input.clone(), format!("style {}: the source has {} @@@ lines, the output shows {} (custom blocks built: {}): {:?}", if *style_a { "A" } else { "B" }, in_src, in_out, real, html));
             }
